@@ -275,6 +275,35 @@ fn check_unequal_states(rng: &mut Rng, iters: u64) -> Option<Found> {
     None
 }
 
+/// "never a false in sync" at the bucket fold: DIFFERENT sets of key digests that a commutative-but-linear fold (XOR, wrapping
+/// sum, per-component folds) cannot tell apart must hash differently: the same values assigned to the keys the other way round,
+/// one value on both keys vs another value on both keys, a difference moved from one key's value hash to the other's.
+fn check_fold_binds_values_to_keys(rng: &mut Rng) -> Option<Found> {
+    for _ in 0..300 {
+        let (k1, k2) = (rng.next(), rng.next());
+        let (v1, v2) = (rng.next(), rng.next());
+        if k1 == k2 || v1 == v2 { continue; }
+        let t = 1 + rng.below(1000);
+        let d = |k: u64, v: u64| KeyDigest { key_hash: k, value_hash: v, timestamp: t };
+        let delta = 1 + rng.below(1 << 40);
+        let cases: Vec<(&str, Vec<KeyDigest>, Vec<KeyDigest>)> = vec![
+            ("the two values swapped between the two keys", vec![d(k1, v1), d(k2, v2)], vec![d(k1, v2), d(k2, v1)]),
+            ("one value on both keys vs another value on both keys", vec![d(k1, v1), d(k2, v1)], vec![d(k1, v2), d(k2, v2)]),
+            ("a difference moved from one value hash to the other (wrapping)", vec![d(k1, v1), d(k2, v2)], vec![d(k1, v1.wrapping_add(delta)), d(k2, v2.wrapping_sub(delta))]),
+            ("a bit pattern moved from one value hash to the other (xor)", vec![d(k1, v1), d(k2, v2)], vec![d(k1, v1 ^ delta), d(k2, v2 ^ delta)]),
+            ("key hash and value hash exchanged", vec![d(k1, v1)], vec![d(v1, k1)]),
+        ];
+        for (what, a, b) in cases {
+            let (na, nb) = (MerkleNode::from_digests(&a), MerkleNode::from_digests(&b));
+            if node_eq(&na, &nb) {
+                return Some(Found { input: format!("bucket A = {:?}, bucket B = {:?} ({})", a.iter().map(kd).collect::<Vec<_>>(), b.iter().map(kd).collect::<Vec<_>>(), what),
+                    observed: format!("MerkleNode::from_digests gives {} for both", show_node(&na)), required: "different bucket contents hash differently (never a false 'in sync': the sync would exchange nothing)".into() });
+            }
+        }
+    }
+    None
+}
+
 // ===================== unit digest_value (C18): the value hash covers the WHOLE replicated value =====================
 // "never a false in sync": two states that differ in ONE observational component of ONE value (a hash field, a field
 // tombstone, a counter slot, a set element / tag, the expiry, a vector-clock entry, the replication factor) must have
@@ -529,6 +558,7 @@ pub fn search(_pid: &str, oid: &str, seed: u64) -> Option<Found> {
     if f.starts_with("MerkleNode") || f.contains("bucket_order") || f.contains("canonical") { if let Some(x) = check_node_perm(&mut rng, 300) { return Some(x); } }
     if f.starts_with("StateDigest") { if let Some(x) = check_equal_states(&mut rng, 30) { return Some(x); } if let Some(x) = check_unequal_states(&mut rng, 100) { return Some(x); } }
     if f.starts_with("KeyDigest::bucket") { if let Some(x) = check_bucket_range(&mut rng) { return Some(x); } }
+    if let Some(x) = check_fold_binds_values_to_keys(&mut rng) { return Some(x); }
     if let Some(x) = check_bucket_range(&mut rng) { return Some(x); }
     if let Some(x) = check_key_digest(&mut rng) { return Some(x); }
     if let Some(x) = check_node_perm(&mut rng, 600) { return Some(x); }
